@@ -145,7 +145,7 @@ def _run_prefix(ctx, muts, segsites, nan_first=False):
         def prop_mut(order, post, phase, *a):
             if a[-1]:
                 for m in order:     # fitted phase: a function of the block data only
-                    if nan_first and int(m) == 0:
+                    if nan_first is not False and int(m) == (0 if nan_first is True else int(nan_first)):
                         phase[m] = math.nan     # projection rejected numerically
                         continue
                     p = sym(f"phase{m}", "nonneg")
@@ -184,6 +184,9 @@ def cases(tier):
                            dict(layout=lay, segsites=seg)))
             cs.append(Case(f"rescale:{lay}:seg{int(seg)}:nan", h_rescale_rephase,
                            dict(layout=lay, segsites=seg, nan_first=True)))
+            if tier == "thorough" and len(c23.LAYOUTS[lay]) >= 2:
+                cs.append(Case(f"rescale:{lay}:seg{int(seg)}:nan1", h_rescale_rephase,
+                               dict(layout=lay, segsites=seg, nan_first=1)))
     return cs
 
 
